@@ -38,8 +38,8 @@ let lkp side f =
   try
     let stream =
       match List.hd f with
-      | "never" | "strip" -> lk_never
-      | "always_ansi" -> lk_always_ansi
+      | "never" | "strip" | "never@mut" | "strip@mut" | "never@box" | "strip@box" -> lk_never
+      | "always_ansi" | "always_ansi@mut" | "always_ansi@box" -> lk_always_ansi
       | m -> raise (Bad ("UNKNOWN-MODE " ^ m))
     in
     let ops = List.map (fun (m, fr) -> op_of m (frags fr)) (pairs (List.tl f)) in
@@ -56,8 +56,8 @@ let lk side f =
       try
         let stream =
           match List.hd f with
-          | "never" | "strip" -> lk_never
-          | "always_ansi" -> lk_always_ansi
+          | "never" | "strip" | "never@mut" | "strip@mut" | "never@box" | "strip@box" -> lk_never
+          | "always_ansi" | "always_ansi@mut" | "always_ansi@box" -> lk_always_ansi
           | m -> raise (Bad ("UNKNOWN-MODE " ^ m))
         in
         let ops = List.map (fun (m, fr) -> op_of m (frags fr)) (pairs (List.tl f)) in
